@@ -5,7 +5,13 @@ use vstd::std_specs::cmp::*;
 use vstd::std_specs::iter::IteratorSpec;
 use std::collections::HashMap;
 verus! {
+pub mod f64_m {
+    #[allow(unused_imports)] use super::*;
 //@include std_f64.rs
+}
+pub use f64_m::*;
+// f64 `/` and `*` never panic: available in EVERY function, wherever the arithmetic sits (not only after a hint anchored in today's text)
+broadcast use f64_m::group_f64_total;
 //@include std_specs.rs
 //@include std_iter.rs
 //@include ws_types.rs
